@@ -33,6 +33,8 @@ func runC06(c *Check, tier string) {
 	ruleDeferredResultNotClobbered(c, "R06n", "output", "output/handlers", "caching", "caching/backends", "execution", "loading", "locking")
 	// a restore that swallows its download errors reports success with files missing
 	shareRule(c, "R06j", "an error channel whose sends never block (select/default) has room for at least one error (same obligation as R04d)", 1, "R04d", func(sub *Check) { ruleR04d(sub) }, func(k string) bool { return strings.Contains(k, "output/handlers") })
+	// round 7 (D29): a symlink at a file output path is replaced, not followed
+	ruleFileRestoreLooksAtThePathItself(c, "R06t")
 }
 
 // R06h: the tree that is stored for a directory output has one node per directory entry.
